@@ -76,7 +76,9 @@ def project(case):
             lines += ["@pytest.mark.xfail", f"def test_{c}_x():", "    " + BODY[c][0], ""]
     if case["xfail"]:
         # xfail given through the class (inherited marker)
-        lines += ["@pytest.mark.xfail", "class TestMarked:", "    def test_cls_x(self):", "        assert 5 == snapshot()", ""]
+        lines += ["@pytest.mark.xfail", "class TestMarked:", "    def test_cls_x(self):", "        assert 5 == snapshot()", "",
+                  "    def test_cls_probe_x(self):", "        import os", "        v = snapshot(3)",
+                  "        open(f'probex_cls_{os.getpid()}.txt', 'w').write(type(v).__name__)", "        assert False", ""]
     lines += ["def test_holds():", "    assert 7 == snapshot(7)", "    assert 1 <= snapshot(1)", ""]
     lines += ["def test_probe():", "    import os", "    v = snapshot(3)",
               "    open(f'probe_{os.getpid()}.txt', 'w').write(type(v).__name__)", ""]
@@ -86,7 +88,8 @@ def project(case):
 
 
 MODULE_XFAIL = ("from inline_snapshot import snapshot\nimport pytest\n\npytestmark = pytest.mark.xfail\n\n\n"
-                "def test_mod_x():\n    assert 5 == snapshot()\n\n\ndef test_mod_fix_x():\n    assert 5 == snapshot(4)\n")
+                "def test_mod_x():\n    assert 5 == snapshot()\n\n\ndef test_mod_fix_x():\n    assert 5 == snapshot(4)\n\n\n"
+                "def test_mod_probe_x():\n    import os\n    v = snapshot(3)\n    open(f'probex_mod_{os.getpid()}.txt', 'w').write(type(v).__name__)\n    assert False\n")
 
 
 import hashlib
